@@ -213,7 +213,7 @@ pub fn run(ctx: &Ctx) {
     );
     // (ii)+(iii) mutants of corpus files and generated documents, raw byte strings
     let nfiles = files.len();
-    let cases = ctx.tier.pick(2_500, 250_000);
+    let cases = ctx.tier.pick(8_000, 250_000);
     ctx.run_cases(
         "mutants-and-generated",
         cases,
